@@ -112,6 +112,25 @@ def minLeaf : Nat → RT V → Option (Bytes × Bytes × V)
     | [] => none
     | (_, c) :: _ => minLeaf f c
 
+/-- `minimum()` of tree.go statement for statement: per class, `children[0]` / the first non-zero index byte /
+    the first non-nil slot (`Raw.minChild`), until a leaf. -/
+def minimum : Nat → RT V → Option (Bytes × Bytes × V)
+  | _, .leaf k tk v => some (k, tk, v)
+  | 0, .node _ => none
+  | f+1, .node r =>
+    match r.minChild with
+    | some c => minimum f c
+    | none => none
+
+/-- `maximum()` of tree.go: `children[childrenLen-1]` / the scans downward from 255 (`Raw.maxChild`). -/
+def maximum : Nat → RT V → Option (Bytes × Bytes × V)
+  | _, .leaf k tk v => some (k, tk, v)
+  | 0, .node _ => none
+  | f+1, .node r =>
+    match r.maxChild with
+    | some c => maximum f c
+    | none => none
+
 def minTKey (hf : Nat) (t : RT V) : Bytes :=
   match minLeaf hf t with
   | some (_, tk, _) => tk
